@@ -206,7 +206,7 @@ def run_verus_unit(root, repo, name, tier, seed, work, want_canaries=True):
         except rsx.Drift as d:
             r["status"] = "undecided"
             r["reason"] = "canary assembly drift: %s" % d
-    if r["status"] in ("pass",) and tier == "thorough":
+    if r["status"] in ("pass",) and (tier == "thorough" or cfg.get("quick_mutants")):
         thorough_verus(root, repo, name, cfg, text, work, r)
     r["samples"] = [dict(obligation="%s: %s" % (k, "verified" if v["ok"] else "FAILED"), ms=v["ms"])
                     for k, v in sorted(r["per_function"].items())][:40]
